@@ -680,6 +680,7 @@ def rule_i(ctx: Ctx) -> None:
     c05_index.rule_q(ctx)
     c05_index.rule_r(ctx)
     c05_index.rule_s(ctx)
+    c05_index.rule_t(ctx)
 
 
 RULES = [rule_c, rule_d, rule_e, rule_f, rule_g, _loops, rule_h, rule_i]
